@@ -124,6 +124,14 @@ func VH_C06_kill_subtree() {
 		}
 	}
 	defer func() { vhOnEnqueue = nil }()
+	if nch > 0 && vrtChoose(2) == 1 {
+		// a spawn under a name that a live child holds is rejected and changes nothing
+		_, err := p.ActorOf(&vhActor{name: "dup"}, vivid.WithActorName(kidActors[0].name))
+		vrtAssert(err != nil, "duplicate-name-spawn-is-rejected")
+		_, still := p.children[kids[0].ref.GetPath()]
+		vrtAssert(still, "rejected-spawn-leaves-the-live-child-registered")
+		vrtReach("rejected-duplicate-spawn")
+	}
 	poison := vrtBool()
 	p.TellSelf(&vhUserMsg{N: 1}) // user mail queued before the kill
 	w.root.Kill(p.ref, poison, "first")
@@ -302,6 +310,27 @@ func VH_C05_restart() {
 			vrtAssert(isLaunch, "new-incarnation-sees-onlaunch-first")
 		}
 		vrtAssert(!w.boxes[c].paused, "restart-leaves-mailbox-unpaused")
+		// the new incarnation changes its behaviour and goes back: a Become followed
+		// by an UnBecome that empties the stack falls back to the CURRENT
+		// instance's OnReceive, and a Become'd behaviour replaces it meanwhile
+		became := 0
+		c.Become(func(ctx vivid.ActorContext) { became++ })
+		c.TellSelf(&vhUserMsg{N: 70})
+		w.run(50, "become-terminates")
+		vrtAssert(became == 1 && vhSeenUser(&cur.vhActor, 70) == 0, "become-replaces-behaviour")
+		switch vrtChoose(2) {
+		case 0:
+			c.UnBecome()
+		case 1:
+			c.UnBecome(vivid.WithBehaviorDiscardOld(true))
+		}
+		vrtAssert(c.behaviorStack.Len() == 1, "unbecome-falls-back-to-onreceive")
+		c.TellSelf(&vhUserMsg{N: 71})
+		w.run(50, "unbecome-terminates")
+		vrtAssert(vhSeenUser(&cur.vhActor, 71) == 1, "unbecome-falls-back-to-the-current-incarnation")
+		if useProvider {
+			vrtAssert(vhSeenUser(&first.vhActor, 71) == 0, "nothing-after-own-onkilled")
+		}
 		// the reference is kept
 		got, err := w.sys.FindActor(c.ref.String())
 		vrtAssert(err == nil && got.Equals(c.ref), "restart-keeps-reference")
